@@ -304,16 +304,19 @@ PROPS["C18"] = {
 
 PROPS["C19"] = {
     "level": "exploration",
-    "plan": zb_plan(("release", "miri")),
+    "plan": zb_plan(("release", "tsan", "miri"), tsan_only="real-daemon"),
     "rule": ("1..24 concurrent callers (call_method and Proxy::call_noreply) against a scripted peer that answers in PRNG order with returns, "
              "errors, never-answered calls, stray replies for unknown serials, duplicate replies for answered serials and interleaved "
              "signals, in random read chunks, under 5 scheduler biases (incl. reply fully processed before the caller is polled again); "
              "some fully-sent callers are cancelled; finally the transport fails (EOF or reset); call table oracle: reply serial and body "
              "are the ones the peer produced for that call, no-reply calls finish without inbound traffic, unanswered calls stay pending "
-             "until the failure and then fail; plus a real-time class with Builder::method_timeout (answered / late / never answered calls);  distinct = distinct schedule fingerprints"),
+             "until the failure and then fail; plus a real-time class with Builder::method_timeout (answered / late / never answered calls); plus class real-daemon (not under Miri): 200 (6000 thorough) "
+             "histories in which 2..8 OS threads of one connection make 10..40 (20..100) calls each, all at once, to an echo service (the library's own object server on a second connection, "
+             "handlers delayed by 0..1 ms so that replies overtake each other, a quarter of the calls answered with an error) through a PRIVATE dbus-daemon 1.14; every caller must get the number "
+             "of its own call back; distinct = distinct schedule fingerprints"),
     "gates": {"quick": {"evaluations": 2500, "distinct": 2000, "class:reply-processed-before-caller-polled": 1000, "class:out-of-order-replies": 500,
                         "class:stray-replies": 1000, "class:cancelled": 100, "class:failed-on-transport-error": 300, "class:no-reply-expected": 300,
-                        "class:method-timeout": 100, "class:timed-out-call": 150},
+                        "class:method-timeout": 100, "class:timed-out-call": 150, "class:real-daemon": 190, "real_calls_checked": 15000},
               "thorough": {"evaluations": 120000, "distinct": 100000}},
     "assumptions": ["the method-timeout class (120 cases per quick run, timeouts of 40/60/100 ms) runs in real time: scheduler steps alternate with 3 ms sleeps; a timed-out call must not complete before the timeout and must complete within 300x the timeout"],
 }
@@ -365,7 +368,7 @@ PROPS["C22"] = {
 PROPS["C23"] = {
     "level": "exploration",
     "plan": zb_plan(("release", "miri")),
-    "rule": ("random Address values (unix path/abstract/dir/tmpdir, unixexec with argv0..3, tcp with family, nonce-tcp, optional guid) "
+    "rule": ("random Address values (unix path/abstract/dir/tmpdir, unixexec with 0..3 and 8..25 (and 101) arguments, tcp with family, nonce-tcp, optional guid) "
              "with values over all byte values 1..255: format then parse must give an equal address and a stable string; random "
              "reference-grammar strings (optionally-escaped characters escaped or not, upper/lower hex) must parse to the "
              "percent-decoded bytes; malformed escapes must be rejected; distinct = distinct address strings"),
